@@ -56,6 +56,11 @@ def _ts(v):
 
 def cmp_values(op, prop_value, filter_value, is_timestamp):
     """prop_value is a JSON scalar from the stored object; filter_value the filter's Python value."""
+    if op == "in" and isinstance(filter_value, str):
+        # a string instead of a list: Python's `in`, i.e. a substring test (the library's own tests rely on it)
+        if is_timestamp or not isinstance(prop_value, str):
+            raise Unjudged("'in' with a string value on a non-string property")
+        return prop_value in filter_value
     if is_timestamp:
         a, b = _ts(prop_value), (None if isinstance(filter_value, (list, tuple)) else _ts(filter_value))
         if op == "in":
